@@ -116,8 +116,8 @@ Definition region_eqb (r1 r2 : region Z) : bool :=
 (** Seconds / milliseconds views: region.sec[a:b], region.ms[a:b].
     int * float: Python converts the int to float then multiplies. *)
 Definition sec_bounds (sr : Z) (a : option f64) (b : option f64) : option (Z * option Z) :=
-  let a' := match a with Some x => x | None => fzero end in
-  match py_int (fmul a' (of_Z sr)) with
+  (* a missing start is the int 0: int(0 * sr) = 0, no float involved *)
+  match (match a with Some x => py_int (fmul x (of_Z sr)) | None => Some (0 * sr) end) with
   | None => None
   | Some sa =>
       match b with
